@@ -45,7 +45,7 @@ func runC17(env *Env) {
 			return unknownSpec(r, uint16([]int{1, 2, 4, 8, 16, 64, 300}[r.Intn(7)]))
 		}
 	}
-	reps := 3
+	reps := 8
 	maxN := 6
 	if env.Thorough() {
 		reps = 60
